@@ -224,7 +224,7 @@ def _cfg(**kw):
     groups = SG.plain_groups(bases=(1, 2, 4, 8, 16, 32), max_dots=2, ok=MM.integral_tick)
     base = dict(groups=groups, min_pitch=-12, max_pitch=115, velocities=st.integers(1, 127), max_bars=3, max_groups=6, max_tracks=3,
                 text=st.text(alphabet=st.characters(min_codepoint=32, max_codepoint=126), max_size=10), partial_last=True, rest_p=3,
-                instruments=["none", "midi", "midi", "generic"])
+                instruments=["none", "midi", "midi", "generic", "percussion"])
     # values given as 288/k (k whole ticks), outside the named vocabulary
     base["groups"] = base["groups"] + [[["ticks", k]] for k in (1, 2, 3, 5, 7, 10, 11, 13, 14, 28, 31, 35, 56, 59, 62, 77, 100, 112, 115, 118, 124, 143, 211, 224, 250)]
     long_name = st.text(alphabet=st.characters(min_codepoint=32, max_codepoint=126), min_size=120, max_size=300)
@@ -239,6 +239,7 @@ def _cfg(**kw):
     base["unsorted_p"] = 6
     base["twin_entry_p"] = 6
     base["duck_instruments"] = True
+    base["same_bar_p"] = 6
     base["reuse_p"] = 6
     base["share_instruments"] = True
     base.update(kw)
@@ -293,6 +294,22 @@ def sub_vlq(ctx, shard, n):
     ctx.enumerate("vlq", check_vlq, ranges[shard::n])
 
 
+def _many_tracks(k):
+    """a composition of k short tracks (the track count of the header is a 16-bit number)"""
+    tracks = []
+    for i in range(k):
+        tracks.append({"name": "t%d" % i, "instr": None if i % 3 else {"kind": "midi", "nr": (i * 7) % 128, "name": ""},
+                       "bars": [{"key": "C", "meter": [2, 4], "entries": [{"v": [4, 0, 1, 1], "notes": [["C", 2 + i % 5, i % 16, 1 + (i * 11) % 127]]},
+                                                                              {"v": [4, 0, 1, 1], "notes": None}]}]})
+    return {"title": "many", "subtitle": "", "author": "", "tracks": tracks}
+
+
+def sub_many_tracks(ctx, shard, n):
+    mt = [{"comp": _many_tracks(k), "bpm": 120} for k in (9, 10, 11, 15, 16, 17, 20, 33, 100, 256, 300)]
+    ctx.exhaustive("compositions of many tracks", "9 .. 300 tracks", len(mt))
+    ctx.enumerate("roundtrip", check_roundtrip, mt)
+
+
 def sub_corrupt(ctx, shard, n):
     cases = [["header-tag", p, v] for p in range(4) for v in (0, 32, 77, 84, 104, 100, 255)] + \
             [["track-tag", p, v] for p in range(8) for v in (0, 32, 77, 84, 114, 107, 255)] + \
@@ -310,5 +327,6 @@ SUBS = [
     Sub("keys_meters", sub_keys_meters, quick=2, thorough=4),
     Sub("bpm", sub_bpm, quick=2, thorough=8),
     Sub("vlq", sub_vlq, quick=3, thorough=16),
+    Sub("many_tracks", sub_many_tracks),
     Sub("corrupt", sub_corrupt),
 ]
